@@ -34,6 +34,21 @@ func cancelCorpus(c *Ctx) []*prog.Program {
 	add(cs[6], "catch-untaken")
 	add(gen.EventGatewayShapes()[0], "evgw")
 	{
+		// a token waits for the decision of an error handler that never comes
+		b := prog.NewBuilder("errhandler_pending")
+		s := b.AddNode("start", "")
+		t1 := b.AddNode("task", "")
+		t2 := b.AddNode("task", "")
+		t3 := b.AddNode("task", "")
+		e := b.AddNode("end", "")
+		b.Connect(s, t1, prog.Cond{})
+		b.Connect(t1, t2, prog.Cond{})
+		b.Connect(t2, t3, prog.Cond{})
+		b.Connect(t3, e, prog.Cond{})
+		b.P.Tags = append(b.P.Tags, "errhandler-pending")
+		add(b.Done(), "errhandler-pending")
+	}
+	{
 		// a token waits at a timer catch event (one hour, host clock) when the cancel comes
 		b := prog.NewBuilder("timer_catch_host")
 		s := b.AddNode("start", "")
